@@ -56,12 +56,27 @@ package stickycookie
 //@   loop 1 invariant -1 <= rangeindex && rangeindex < len(urls)
 //@   loop 1 invariant forall j int :: 0 <= j && j <= rangeindex ==> p_ok(raw) && !matches(raw, urls[j])
 
+// hsh is the salted digest in text form: FNV-1a (64 bit) of salt followed by input, printed in base 16. The two library
+// functions are assumed to be functions of their arguments (fnv64, fmtuint); that hash composes them this way is proved.
+//@ spec fnv64(s string) int
+//@ spec fmtuint(v int, base int) string
+//@ axiom hsh_def: forall salt string, input string {hsh(salt, input)} :: hsh(salt, input) == fmtuint(fnv64(salt + input), 16)
+//@ extern github.com/segmentio/fasthash/fnv1a.HashString64
+//@   params s
+//@   modifies nothing
+//@   nopanic
+//@   ensures a_function_of_the_text: result == fnv64(s)
+//@ extern strconv.FormatUint
+//@   params i base
+//@   modifies nothing
+//@   nopanic
+//@   ensures a_function_of_value_and_base: result == fmtuint(i, base)
 //@ func (*HashValue).hash
 //@   props C11
-//@   trusted
 //@   nopanic
+//@   requires v != nil
 //@   modifies nothing
-//@   ensures result == hsh(v.Salt, input)
+//@   ensures salted_digest: result == hsh(v.Salt, input)
 
 //@ func normalized
 //@   props C11
